@@ -47,7 +47,7 @@ RULE = ("corr: (grid N per direction in 1..12, every/some factorisation N = div 
         "K-lists) -> the (k, weight) list of the real Grid + Data_K objects; oracle: (random system, N in {3,4,6} per "
         "direction, always the two extreme factorisations NKdiv=N x NKFFT=1 and NKdiv=1 x NKFFT=N plus 1-2 random ones incl. "
         "NKFFT below NKFFT_recommended, both fftlibs, tetra on/off) x calculator; (model with a "
-        "C4 / C6 / cubic point group, ALL factorisations of (6,6,2), (4,4,2), (4,4,4), (6,6,6 sample), use_irred_kpt on/off): "
+        "C4 / C6 / cubic point group or a magnetic group (rotation x time reversal without inversion), ALL factorisations of (6,6,2), (4,4,2), (4,4,4), (6,6,6 sample), use_irred_kpt on/off): "
         "refused by Grid() or equal to the full-grid reference; non-trivial = "
         "more than one K-point and more than one FFT point, or a calculator result that is not identically zero; "
         "distinct = distinct protocol line / distinct (system seed, N, factorisation, fftlib, tetra, calculator)")
@@ -487,39 +487,60 @@ def oracle_kset(ctx, scale):
                              dict(case, K=K.K))
 
 
+_HEX = lambda a, c: np.array([[a, 0, 0], [-a / 2, a * np.sqrt(3) / 2, 0], [0, 0, c]])   # noqa
 SYM_KINDS = {
     "c4": (["C4z", "Mx", "Inversion", "TimeReversal"], lambda a, c: np.diag([a, a, c]), [(6, 6, 2), (4, 4, 2)]),
-    "hex": (["C6z", "Mx", "Mz", "TimeReversal"],
-            lambda a, c: np.array([[a, 0, 0], [-a / 2, a * np.sqrt(3) / 2, 0], [0, 0, c]]), [(6, 6, 2), (4, 4, 2)]),
+    "hex": (["C6z", "Mx", "Mz", "TimeReversal"], _HEX, [(6, 6, 2), (4, 4, 2)]),
     "cubic": (["C4z", "C4x", "Inversion", "TimeReversal"], lambda a, c: np.eye(3) * a, [(4, 4, 4), (6, 6, 6)]),
+    # magnetic groups: rotation*TimeReversal WITHOUT inversion and without pure time reversal (k -> -Rk for those operations)
+    "c3-magnetic": (["C3z", "C2y*TimeReversal"], _HEX, [(6, 6, 2), (3, 3, 2)]),
+    "c4-magnetic": (["C4z", "Mx*TimeReversal"], lambda a, c: np.diag([a, a, c]), [(4, 4, 3), (6, 6, 3)]),
+    "c3m-magnetic": (["C3z", "Mx*TimeReversal", "Mz"], _HEX, [(3, 3, 2), (6, 6, 1)]),
 }
 
 
 def symmetric_system(rng, kind, nw=2):
-    """tight-binding model that really has the point group: s-like orbitals at the origin, one random real symmetric
-    hopping matrix per orbit of R-vectors under the group (which contains inversion), irrational-looking values"""
+    """tight-binding model that really has the (magnetic) point group: s-like orbitals at the origin; a random Hermitian
+    model on a set of R-vectors closed under the group and R -> -R is averaged over the group, where a unitary operation
+    acts as H(R) -> H(gR) and one containing time reversal as H(R) -> conj H(gR)"""
     with quiet():
         from wannierberri.system.system_R import System_R
     gens, mklat, _ = SYM_KINDS[kind]
     A = mklat(rng.choice([1.0, 1.3]), rng.choice([1.6, 2.1]))
     pg = g6.get_pg("sym-" + kind, gens, A)
     Ainv = np.linalg.inv(A)
-    mats = []
+    ops = []
     for S in pg.symmetries:
         M = A @ (S.R * S.iInv).T @ Ainv
         assert np.abs(M - np.round(M)).max() < 1e-9
-        mats.append(np.round(M).astype(int))
-    ham, done = {}, set()
+        ops.append((np.round(M).astype(int), bool(S.TR)))
+    Rset = set()
+    for seed in [(0, 0, 0), (1, 0, 0), (0, 0, 1), (1, 1, 0), (1, 0, 1), (2, 0, 0), (1, 1, 1), (2, 1, 0)]:
+        for M, _ in ops:
+            R = tuple(int(x) for x in np.array(seed) @ M)
+            Rset.add(R)
+            Rset.add(tuple(-x for x in R))
+    for _ in range(2):   # close under the group
+        Rset |= {tuple(int(x) for x in np.array(R) @ M) for R in Rset for M, _ in ops}
     rs = np.random.RandomState(rng.getrandbits(31))
-    for seed in [(0, 0, 0), (1, 0, 0), (0, 0, 1), (1, 1, 0), (1, 0, 1), (2, 0, 0), (1, 1, 1), (0, 0, 2), (2, 1, 0)]:
-        orbit = {tuple(int(x) for x in np.array(seed) @ M) for M in mats}
-        if orbit & done:
+    H0 = {}
+    for R in sorted(Rset):
+        if R in H0:
             continue
-        done |= orbit
-        h = rs.uniform(-1, 1, (nw, nw)) * (1.0 if seed == (0, 0, 0) else 0.45)
-        h = (h + h.T) / 2 + 0.0137
-        for R in orbit:
-            ham[R] = {(i, j): h[i, j] for i in range(nw) for j in range(nw)}
+        h = (rs.uniform(-1, 1, (nw, nw)) + 1j * rs.uniform(-1, 1, (nw, nw))) * (1.0 if R == (0, 0, 0) else 0.4)
+        mR = tuple(-x for x in R)
+        if mR == R:
+            h = (h + h.conj().T) / 2
+        H0[R] = h
+        H0[mR] = h.conj().T
+    ham = {}
+    for R in Rset:
+        acc = np.zeros((nw, nw), dtype=complex)
+        for M, tr in ops:
+            h = H0[tuple(int(x) for x in np.array(R) @ M)]
+            acc += h.conj() if tr else h
+        acc /= len(ops)
+        ham[R] = {(i, j): acc[i, j] for i in range(nw) for j in range(nw)}
     with quiet(), warnings.catch_warnings():
         warnings.simplefilter("ignore")
         system = System_R.from_sparse(real_lattice=A, wannier_centers_red=np.zeros((nw, 3)), matrices={"Ham": ham})
@@ -532,7 +553,9 @@ def oracle_symmetric(ctx, scale):
     must either be refused by Grid() or give the result of the reference (full grid, no FFT, no symmetry)"""
     rng = ctx.rng
     wb = _mods()[0]
-    kinds = list(SYM_KINDS) if ctx.tier == "thorough" else rng.sample(list(SYM_KINDS), 2)
+    mag = [k for k in SYM_KINDS if "magnetic" in k]
+    nonmag = [k for k in SYM_KINDS if "magnetic" not in k]
+    kinds = list(SYM_KINDS) if ctx.tier == "thorough" else [rng.choice(nonmag), rng.choice(mag)]
     for kind in kinds * (1 if scale == 1 else 2):
         case0 = dict(kind="symmetric", lattice_kind=kind)
         with ctx.attempt("building a symmetric model", case0):
